@@ -82,6 +82,19 @@ def run(ck, models, tier):
                     c = g[0]
                     core = c.args[0] if c.op == "not" else c
                     gate_kinds.add((core, v))
+                    # polarity: the installation must lie on the edge where the extracted return type EQUALS bool
+                    top = core.args[0] if core.op == "ret" else core.op
+                    neg = c.op == "not"
+                    val = g[1] if not neg else 1 - g[1]
+                    if top.endswith("::ne") or top == "str_ne":
+                        equal_edge = val == 0
+                    elif top.endswith("::eq") or top == "str_eq":
+                        equal_edge = val == 1
+                    else:
+                        equal_edge = None
+                    if equal_edge is not None:
+                        ck.ob("R10.2", "%s/install-on-equal-edge" % rn, tm.target, equal_edge,
+                              "the installing path takes the %s edge of %s" % ("equal" if equal_edge else "NOT-equal", fmt(core, 5)), where(eff[0]))
             # the failing edge diverges without effects
             refused = [v for v in vs if v.status == "diverged" and not any(is_effect(e) for e in v.trace)
                        and any(dep_in(v, d[0]) for d in v.decisions)]
